@@ -310,6 +310,22 @@ def register(db):
         assumes=[DERIVED.format(d="data")],
         ensures=[], raises=dict(DOCUMENTED), returns="u:Any", properties=P,
     ))
+    assume_method(db, "XmlContext", "find_subclass", returns="u:type|None", pure=True)
+    XT = "uf('Json.item', 'u:Json|None', data, 'type')"
+    FT = "XmlContext.find_type"
+    db.add(Contract(
+        f"{DD}.bind_derived_value", variant="named-type",
+        params={"self": decoder, "meta": "opaque:XmlMeta", "var": "opaque:XmlVar", "data": "u:Json"},
+        requires=["isinstance(data, dict)", "data.keys() == self.context.class_type.derived_keys", "not var.elements"],
+        assumes=[DERIVED.format(d="data")],
+        ensures=[("a-named-type-is-looked-up-in-the-whole-index-whatever-the-field-declares",
+                  f"implies(called('DictDecoder.bind_dataclass') == 1 and called('DictDecoder.bind_complex_type') == 0, "
+                  f"called('{FT}') == 1 and call_arg('{FT}', 0) == {XT} and called('XmlContext.find_subclass') == 0 and "
+                  f"call_arg('DictDecoder.bind_dataclass', 2) is call_result('{FT}'))")],
+        raises=dict(DOCUMENTED), returns="u:Any", properties=["C04"],
+        note="decode(encode(x)): the encoder writes the class of the value as `type`; the field's declared class must not "
+             "narrow the lookup (the value may be of the declared class itself)",
+    ))
     db.add(Contract(
         f"{DD}.bind_derived_dataclass", variant="documented-errors", call_default=True,
         params={"self": decoder, "data": "u:Json", "clazz": "opaque:type"},
